@@ -517,9 +517,331 @@ fn run_api_case(case: &Value, scratch: &StdPath, dev2: Option<&StdPath>, devices
     }
 }
 
-//HIST
-fn run_hist(_case: &Value, _scratch: &StdPath) -> String {
-    "unimplemented".to_string()
+// ------------------------------------------------------------------------------------------------
+// C04: histories.  The library is used in the order main.rs uses it:
+//   group_files ; [phase-1 operations] ; write_report ; [phase-2 operations] ;
+//   dedupe(groups, op, config with modified_before = header time stamp) ; run_script
+// Output:  <id> TAB <H line for the model> TAB F <nodes> ## S <parts> TAB <pre inventory> TAB <post inventory> TAB <info>
+
+fn now_ns() -> i128 {
+    let d = std::time::SystemTime::now().duration_since(std::time::UNIX_EPOCH).unwrap();
+    d.as_nanos() as i128
+}
+fn sleep_ms(ms: u64) {
+    std::thread::sleep(std::time::Duration::from_millis(ms));
+}
+
+/// what a path names right now: (node as the model prints it, inventory entry)
+fn observe(p: &StdPath) -> (String, String) {
+    let l = statx(p, false);
+    let st = statx(p, true);
+    match (l, st) {
+        (None, _) => ("M".into(), "M".into()),
+        (Some(l), None) => ("M".into(), format!("L:{}:dangling", l.ino)),
+        (Some(l), Some(st)) => {
+            let is_link = l.mode & libc::S_IFMT == libc::S_IFLNK;
+            if st.mode & libc::S_IFMT == libc::S_IFREG {
+                let data = std::fs::read(p).unwrap_or_default();
+                let hex = if data.is_empty() { "-".to_string() } else { hex_comp(&data) };
+                (
+                    format!("F:{}:{}", hex, st.mtime),
+                    if is_link { format!("L:{}:{}", l.ino, hex) } else { format!("F:{}:{}:{}", st.ino, hex, st.mtime) },
+                )
+            } else {
+                ("N".into(), if is_link { format!("L:{}:nonreg", l.ino) } else { format!("N:{}", st.ino) })
+            }
+        }
+    }
+}
+
+fn run_hist(case: &Value, scratch: &StdPath) -> String {
+    let id = case["id"].as_u64().unwrap();
+    let dir = scratch.join(format!("h{id}"));
+    let _ = std::fs::remove_dir_all(&dir);
+    std::fs::create_dir_all(&dir).unwrap();
+    let out = (|| -> Result<String, String> {
+        let len = case["len"].as_u64().unwrap() as usize;
+        let d0: Vec<u8> = vec![65u8; len];
+        let members = case["members"].as_array().unwrap();
+        let tree = dir.join("tree");
+        let mut paths: Vec<PathBuf> = vec![];
+        let mut share: Vec<usize> = vec![];
+        let m0 = now_ns() / 1_000_000_000 * 1_000_000_000 - 100_000_000_000;
+        for (j, m) in members.iter().enumerate() {
+            let p = tree.join(s(m, "path"));
+            mkparents(&p);
+            match m["hard_of"].as_u64() {
+                Some(k) => {
+                    std::fs::hard_link(&paths[k as usize], &p).map_err(|e| e.to_string())?;
+                    share.push(share[k as usize]);
+                }
+                None => {
+                    std::fs::write(&p, &d0).map_err(|e| e.to_string())?;
+                    share.push(j);
+                }
+            }
+            paths.push(p);
+        }
+        for p in &paths {
+            filetime::set_file_times(p, ft_of_ns(m0), ft_of_ns(m0)).map_err(|e| e.to_string())?;
+        }
+        // ---- group
+        let log = CapLog::new();
+        let mut gc = fclones::config::GroupConfig::default();
+        gc.paths = vec![FPath::from(&tree)];
+        gc.base_dir = FPath::from(&dir);
+        gc.match_links = case["mlinks"].as_bool().unwrap_or(false);
+        gc.output = Some(dir.join("report"));
+        if s(case, "format") == "json" {
+            gc.format = fclones::config::OutputFormat::Json;
+        }
+        let groups = fclones::group_files(&gc, &log).map_err(|e| format!("group_files: {}", e.message))?;
+        let t_read = now_ns();
+        if groups.len() != 1 || groups[0].files.len() != paths.len() {
+            return Err(format!("group_files found {} groups", groups.len()));
+        }
+        let order: Vec<usize> = groups[0]
+            .files
+            .iter()
+            .map(|f| paths.iter().position(|q| *q == f.path.to_path_buf()).ok_or("unknown path in group".to_string()))
+            .collect::<Result<_, _>>()?;
+        let glen = groups[0].file_len.0;
+        // ---- operations
+        let mut ops_of: Vec<Vec<String>> = vec![vec![]; paths.len()];
+        let mut last_phase: Vec<u64> = vec![0; paths.len()];
+        let mut fresh = paths.len();
+        let mut apply = |phase: u64, ops_of: &mut Vec<Vec<String>>, share: &mut Vec<usize>| -> Result<(), String> {
+            for o in case["ops"].as_array().unwrap() {
+                if o["phase"].as_u64().unwrap() != phase {
+                    continue;
+                }
+                let j = o["m"].as_u64().unwrap() as usize;
+                let p = &paths[j];
+                let kind = s(o, "kind");
+                let is_file = statx(p, false).map(|x| x.mode & libc::S_IFMT == libc::S_IFREG).unwrap_or(false);
+                let cur = if is_file { std::fs::read(p).unwrap_or_default() } else { vec![] };
+                let fill = o["fill"].as_u64().unwrap_or(66) as u8;
+                let e = |x: std::io::Error| format!("op {kind}: {x}");
+                let hexd = |d: &[u8]| if d.is_empty() { "-".to_string() } else { hex_comp(d) };
+                // content operations act on the inode (all members sharing it); path operations on the name
+                let mut content_op: Option<String> = None;
+                let mut path_op: Option<String> = None;
+                match kind {
+                    "write_same" | "write_diff" | "write_equal" => {
+                        if !is_file {
+                            continue;
+                        }
+                        let d: Vec<u8> = match kind {
+                            "write_same" => vec![fill; cur.len()],
+                            "write_equal" => cur.clone(),
+                            _ => vec![fill; cur.len() + 1 + o["arg"].as_u64().unwrap_or(0) as usize],
+                        };
+                        std::fs::write(p, &d).map_err(e)?;
+                        content_op = Some(format!("w:{}", hexd(&d)));
+                    }
+                    "append" => {
+                        if !is_file {
+                            continue;
+                        }
+                        let mut f = std::fs::OpenOptions::new().append(true).open(p).map_err(e)?;
+                        f.write_all(&[fill, fill]).map_err(e)?;
+                        content_op = Some(format!("a:{}", hexd(&[fill, fill])));
+                    }
+                    "truncate" => {
+                        if !is_file {
+                            continue;
+                        }
+                        let k = (o["arg"].as_u64().unwrap_or(1) as usize).min(cur.len());
+                        let f = std::fs::OpenOptions::new().write(true).open(p).map_err(e)?;
+                        f.set_len(k as u64).map_err(e)?;
+                        if k == cur.len() {
+                            // ftruncate to the same size still stamps mtime on Linux; it is a touch
+                            content_op = Some(format!("tr:{k}"));
+                        } else {
+                            content_op = Some(format!("tr:{k}"));
+                        }
+                    }
+                    "touch" => {
+                        if !is_file {
+                            continue;
+                        }
+                        filetime::set_file_mtime(p, ft_of_ns(now_ns())).map_err(e)?;
+                        content_op = Some("touch".to_string());
+                    }
+                    "unlink" | "recreate_same" | "recreate_diff" | "recreate_equal" | "dir" | "fifo" | "symlink_dangling" | "symlink_dir" => {
+                        match statx(p, false) {
+                            Some(x) if x.mode & libc::S_IFMT == libc::S_IFDIR => std::fs::remove_dir(p).map_err(e)?,
+                            Some(_) => std::fs::remove_file(p).map_err(e)?,
+                            None => {}
+                        }
+                        match kind {
+                            "unlink" => path_op = Some("unlink".into()),
+                            "recreate_same" | "recreate_diff" | "recreate_equal" => {
+                                let d: Vec<u8> = match kind {
+                                    "recreate_same" => vec![fill; len],
+                                    "recreate_equal" => d0.clone(),
+                                    _ => vec![fill; len + 2],
+                                };
+                                std::fs::write(p, &d).map_err(e)?;
+                                path_op = Some(format!("re:{}", hexd(&d)));
+                            }
+                            "dir" => {
+                                std::fs::create_dir(p).map_err(e)?;
+                                path_op = Some("nonreg".into());
+                            }
+                            "fifo" => {
+                                let c = CString::new(p.as_os_str().as_bytes()).unwrap();
+                                if unsafe { libc::mkfifo(c.as_ptr(), 0o644) } != 0 {
+                                    return Err("mkfifo".into());
+                                }
+                                path_op = Some("nonreg".into());
+                            }
+                            "symlink_dangling" => {
+                                std::os::unix::fs::symlink(dir.join("nowhere"), p).map_err(e)?;
+                                path_op = Some("dangling".into());
+                            }
+                            _ => {
+                                std::os::unix::fs::symlink(&dir, p).map_err(e)?;
+                                path_op = Some("nonreg".into());
+                            }
+                        }
+                    }
+                    k => return Err(format!("unknown op {k}")),
+                }
+                // the time the operation stamped (ordinary operations: mtime := time of the operation)
+                let t = match statx(p, true) {
+                    Some(x) if x.mode & libc::S_IFMT == libc::S_IFREG => x.mtime,
+                    _ => now_ns(),
+                };
+                if let Some(c) = content_op {
+                    for i in 0..paths.len() {
+                        if share[i] == share[j] {
+                            ops_of[i].push(format!("{t}:{c}"));
+                            last_phase[i] = phase;
+                        }
+                    }
+                }
+                if let Some(c) = path_op {
+                    ops_of[j].push(format!("{t}:{c}"));
+                    last_phase[j] = phase;
+                    share[j] = fresh;
+                    fresh += 1;
+                }
+                sleep_ms(2);
+            }
+            Ok(())
+        };
+        sleep_ms(10);
+        apply(1, &mut ops_of, &mut share)?;
+        sleep_ms(10);
+        // ---- report
+        fclones::write_report(&gc, &log, &groups).map_err(|e| format!("write_report: {e}"))?;
+        let t_written = now_ns();
+        sleep_ms(10);
+        apply(2, &mut ops_of, &mut share)?;
+        sleep_ms(2);
+        drop(apply);
+        use fclones::report::ReportReader;
+        let f = std::fs::File::open(dir.join("report")).map_err(|e| e.to_string())?;
+        let mut reader = fclones::report::open_report(f).map_err(|e| e.to_string())?;
+        let header = reader.read_header().map_err(|e| e.to_string())?;
+        let ts = header.timestamp;
+        let ts_ns = ts.timestamp() as i128 * 1_000_000_000 + ts.timestamp_subsec_nanos() as i128;
+        // ---- dedupe configuration as run_dedupe builds it
+        let opname = s(case, "op");
+        let movedir = dir.join("moved");
+        let op = match opname {
+            "rm" => DedupeOp::Remove,
+            "sl" => DedupeOp::SymbolicLink,
+            "hl" => DedupeOp::HardLink,
+            "rl" => DedupeOp::RefLink,
+            "mv" => DedupeOp::Move(Arc::new(FPath::from(&movedir))),
+            _ => return Err("op".into()),
+        };
+        let config = DedupeConfig {
+            rf_over: Some(case["n"].as_u64().map(|n| n as usize).unwrap_or(gc.rf_over())),
+            priority: case["prio"].as_array().unwrap().iter().map(|p| priority_of(p.as_u64().unwrap())).collect(),
+            match_links: gc.match_links,
+            no_check_size: case["nosize"].as_bool().unwrap_or(false),
+            modified_before: Some(ts),
+            ..DedupeConfig::default()
+        };
+        // ---- state of every path right before the dedupe run
+        let devices = DiskDevices::new(&std::collections::HashMap::new());
+        let target_dir = FPath::from(&movedir);
+        let mut nodes = vec![];
+        let mut pre = vec![];
+        let mut mems = vec![];
+        let ordered: Vec<PathBuf> = order.iter().map(|j| paths[*j].clone()).collect();
+        for (pos, j) in order.iter().enumerate() {
+            let p = &paths[*j];
+            let (n, inv) = observe(p);
+            nodes.push(n);
+            pre.push(inv);
+            let st = statx(p, true);
+            let (dev, ino, at, bt, ct) = match &st {
+                Some(x) => (x.dev, x.ino, x.atime.to_string(), x.btime.map(|b| b.to_string()).unwrap_or("-".into()), x.ctime),
+                None => (0, pos as u64, "-".to_string(), "-".to_string(), (0, 0)),
+            };
+            let same_mount = devices.get_mount_point(&FPath::from(p)) == devices.get_mount_point(&target_dir);
+            mems.push(format!(
+                " {} {} {} {} {} {},{} {} {} {} {}",
+                path_hex(p), dev, ino, at, bt, ct.0, ct.1, m0, t_read, same_mount as u8,
+                if ops_of[*j].is_empty() { "-".to_string() } else { ops_of[*j].join(",") }
+            ));
+        }
+        let line = format!(
+            "H {} {} {} {} {} {} {} - {} |{}",
+            match opname {
+                "mv" => format!("mv:{}", path_hex(&movedir)),
+                o => o.to_string(),
+            },
+            config.rf_over.unwrap(),
+            config.match_links as u8,
+            config.no_check_size as u8,
+            ts_ns,
+            if config.priority.is_empty() { "-".to_string() } else { case["prio"].as_array().unwrap().iter().map(|p| p.to_string()).collect::<Vec<_>>().join(",") },
+            glen,
+            if d0.is_empty() { "-".to_string() } else { hex_comp(&d0) },
+            mems.join(" ;")
+        );
+        // ---- dedupe + run_script
+        let split = matches!(op, DedupeOp::HardLink | DedupeOp::RefLink);
+        let script: Vec<(usize, Vec<FsCommand>)> = fclones::dedupe(groups, op, &config, &log).collect();
+        let mut parts: BTreeMap<i128, Vec<String>> = BTreeMap::new();
+        for (_, cmds) in &script {
+            for c in cmds {
+                let victim = c.file_to_remove().to_path_buf();
+                let dev: i128 = if !split { -1 } else { statx(&victim, true).map(|x| x.dev as i128).unwrap_or(-3) };
+                parts.entry(dev).or_default().push(cmd_str(&ordered, c));
+            }
+        }
+        let sres = if parts.is_empty() {
+            "-".to_string()
+        } else {
+            parts
+                .iter()
+                .map(|(d, cs)| format!("{}:{}", if *d == -1 { "*".to_string() } else { d.to_string() }, cs.join(",")))
+                .collect::<Vec<_>>()
+                .join(" || ")
+        };
+        let result = fclones::run_script(script, true, &log);
+        let post: Vec<String> = ordered.iter().map(|p| observe(p).1).collect();
+        let info = serde_json::json!({
+            "ts_ns": ts_ns.to_string(), "t_read": t_read.to_string(), "t_written": t_written.to_string(),
+            "last_phase": order.iter().map(|j| last_phase[*j]).collect::<Vec<_>>(),
+            "order": order, "processed": result.processed_count,
+            "warnings": log.msgs.lock().unwrap().iter().filter(|m| m.starts_with("warn")).count(),
+        });
+        Ok(format!("{id}\t{line}\tF {} ## S {sres}\t{}\t{}\t{}", nodes.join(" "), pre.join(" "), post.join(" "), info))
+    })();
+    if !case["keep_files"].as_bool().unwrap_or(false) {
+        let _ = std::fs::remove_dir_all(&dir);
+    }
+    match out {
+        Ok(l) => l,
+        Err(e) => format!("{id}\tPRECOND\t{e}"),
+    }
 }
 
 fn main() {
